@@ -37,7 +37,7 @@ META = dict(
     need=["value_cmp", "linval_cmp", "jac_cmp", "adjoint_cmp", "metric_cmp", "metric_absent_cmp",
           "complex_cases", "multidomain_cases"],
     quick=dict(cases=1500, workers=6, budget_s=75),
-    thorough=dict(cases=60000, workers=16, budget_s=780),
+    thorough=dict(cases=40000, workers=16, budget_s=780),
     design_ref="DESIGN.md §5 C03",
     level_text=("random expression programs, every ptw_dict entry, one evaluation point per "
                 "program, compared entry-wise against jax autodiff of an independent mirror; "
